@@ -355,13 +355,13 @@ class Check:
                 if f["key"] == finding_key:
                     self.known_hits[finding_key] = self.known_hits.get(finding_key, 0) + 1
                     return
-        if len(self.violations) < 20:
+        if sum(1 for v in self.violations if v[0] == "oracle") < 20:
             self.violations.append(("oracle", description, replay))
 
     def report_tie(self, description, replay):
         """implementation != model, or a theorem that no longer checks (step 5)."""
         self.model_disagreements += 1
-        if len(self.violations) < 20:
+        if sum(1 for v in self.violations if v[0] == "tie") < 20:
             self.violations.append(("tie", description, replay))
 
     def finish(self):
